@@ -206,7 +206,62 @@ def corpus_modules():
         return add(b, ir.Cast(t4, "r", ir.i32))
     unary("cast_sign", signcasts)
     out.append((irgen.Generated(m, ents, []), cases))
+    out.append(ops_module([ir.i32, ir.u32], "c05_ops32"))
     return out
+
+
+def ops_module(types, name):
+    """one function per (type, binary operator / comparison): f(a, b) = a op b on boundary operands (divisor and shift count guarded)"""
+    from ppci import ir
+    from . import irgen
+    m = ir.Module(name)
+    ents, cases = [], []
+    for t in types:
+        lo, hi = irgen.type_range(t)
+        vals = [0, 1, 2, 7, 31, hi, hi - 1, lo, lo + 1 if t.signed else 255, (1 << (t.bits - 1)) - 5, 0x12345678 % (hi + 1)]
+        if t.signed:
+            vals += [-1, -2, -30]
+        else:
+            vals += [hi - 29, 1 << (t.bits - 1)]
+        for op in ["+", "-", "*", "/", "%", "&", "|", "^", "<<", ">>", "<", ">=", "=="]:
+            fname = f"op_{t.name}_" + {"+": "add", "-": "sub", "*": "mul", "/": "div", "%": "rem", "&": "and", "|": "or", "^": "xor",
+                                       "<<": "shl", ">>": "shr", "<": "lt", ">=": "ge", "==": "eq"}[op]
+            f = ir.Function(fname, ir.Binding.GLOBAL, t)
+            m.add_function(f)
+            blk = ir.Block(fname + "_entry")
+            f.add_block(blk)
+            f.entry = blk
+            a, b = ir.Parameter("a", t), ir.Parameter("b", t)
+            f.add_parameter(a)
+            f.add_parameter(b)
+
+            def add(i, blk=blk):
+                blk.add_instruction(i)
+                return i
+            if op in ("<", ">=", "=="):
+                yes, no = ir.Block(fname + "_yes"), ir.Block(fname + "_no")
+                f.add_block(yes)
+                f.add_block(no)
+                add(ir.CJump(a, op, b, yes, no))
+                c1 = ir.Const(1, "c1", t)
+                yes.add_instruction(c1)
+                yes.add_instruction(ir.Return(c1))
+                c0 = ir.Const(0, "c0", t)
+                no.add_instruction(c0)
+                no.add_instruction(ir.Return(c0))
+            else:
+                rhs = b
+                if op in ("<<", ">>"):
+                    rhs = add(ir.Binop(b, "&", add(ir.Const(t.bits - 1, "mask", t)), "cnt", t))
+                elif op in ("/", "%"):      # divisor in 1..256: never 0, never -1
+                    rhs = add(ir.Binop(add(ir.Binop(b, "&", add(ir.Const(255, "m", t)), "lowb", t)), "+", add(ir.Const(1, "one", t)), "dv", t))
+                add(ir.Return(add(ir.Binop(a, op, rhs, "r", t))))
+            e = irgen.Entry(fname, [t, t], t, True)
+            ents.append(e)
+            pairs = [(vals[i], vals[(i * 5 + k) % len(vals)]) for k in (1, 3) for i in range(len(vals))]
+            for x, y in pairs[:14]:
+                cases.append((e, [x, y]))
+    return irgen.Generated(m, ents, []), cases
 
 
 def cfg_riscv():
@@ -411,7 +466,10 @@ def corpus_modules_tagged():
     from ppci import ir
     from ppci.irutils import Reader
     from . import irgen
-    out = [(g, cases, "corpus") for g, cases in corpus_modules() if g.module.name not in ("c05_consts",)]
+    from ppci import ir as _ir
+    out = [(g, cases, "corpus") for g, cases in corpus_modules() if g.module.name not in ("c05_consts", "c05_ops32")]
+    g64, c64 = ops_module([_ir.i32, _ir.u32, _ir.i64, _ir.u64], "c05_ops")
+    out.append((g64, c64, "corpus"))
     for path in sorted((common.VERIF / "corpus" / "C05").glob("*.ir")):
         with open(path) as f:
             m = Reader().read(f)
